@@ -95,7 +95,7 @@ func main() {
 }
 
 func c13(c *Ctx) {
-	c.Rule = "fault enumeration in a child process built with the delay overlay: scenarios close-idle / close-early (before the join completes) / close-queued (3..7 commands, the terminal goes after 1-2 were written) / close-outstanding / rst-outstanding / close-afterresp / close-timer (close within +-4 ms of the timer expiry) / notmo (no timeout, released by the disconnect) / mixed / burst / flood-close (30..400 heartbeats in one segment, then close or RST after 1-3 replies or 0.1-8 ms) / reissue-close (0..8 0x8003 frames in one write plus single ones, close or RST 0.05-8 ms later) / stall-close (a transfer stalled for 5 s: generated re-request, then close) / default0 (OverTimeDuration 0, silent terminal), 1..8 callers, timeouts 60-600 ms, under 6 delay configurations (seeded Gosched only at 30 / 60 % of the instrumented sites, sleeps up to 0.2 / 0.5 / 1 / 3 ms at 30 / 20 / 15 / 12 %) and, for each of the instrumented sites in turn, with that site alone always delaying 2.5 ms; a case is non-trivial when at least one call was made and the terminal went away; distinct = distinct recorded histories"
+	c.Rule = "fault enumeration in a child process built with the delay overlay: scenarios close-idle / close-early (before the join completes) / close-queued (3..7 commands, the terminal goes after 1-2 were written) / close-outstanding / rst-outstanding / close-afterresp / close-timer (close within -1.5..+4.5 ms of the timer expiry) / notmo (no timeout, released by the disconnect) / mixed / burst / flood-close (30..400 heartbeats in one segment, then close or RST after 1-3 replies or 0.1-8 ms) / reissue-close (0..8 0x8003 frames in one write plus single ones, close or RST 0.05-8 ms later) / stall-close (a transfer stalled for 5 s: generated re-request, then close) / default0 (OverTimeDuration 0, silent terminal), 1..8 callers, timeouts 5-600 ms and the 3 s default, garbage-close (a frame with a bad check code from a live peer), under 8 configurations: 6 delay configurations (seeded Gosched only at 30 / 60 % of the instrumented sites, sleeps up to 0.2 / 0.5 / 1 / 3 ms at 30 / 20 / 15 / 12 %) and, for each of the instrumented sites in turn, with that site alone always delaying 2.5 ms; 2 configurations in which the user callbacks sleep up to 20 / 5 ms; the witness of finding blocked-write in a server of its own; a case is non-trivial when at least one call was made and the terminal went away; distinct = distinct recorded histories"
 	for _, o := range oldSchedules {
 		c.Do(o[0], false)
 	}
@@ -105,9 +105,11 @@ func c13(c *Ctx) {
 		return
 	}
 	kinds := []string{"close-idle", "close-early", "close-queued", "close-queued", "close-outstanding", "rst-outstanding",
-		"close-afterresp", "close-timer", "close-timer", "notmo", "mixed", "burst", "flood-close", "flood-close", "reissue-close", "reissue-close"}
+		"close-afterresp", "close-timer", "close-timer", "notmo", "mixed", "burst", "flood-close", "flood-close", "reissue-close", "reissue-close", "garbage-close"}
 	cfgs := []DelayCfg{{Seed: int(c.Seed), US: 0, P: 30}, {Seed: int(c.Seed) + 1, US: 200, P: 30}, {Seed: int(c.Seed) + 2, US: 1000, P: 15},
-		{Seed: int(c.Seed) + 3, US: 3000, P: 12}, {Seed: int(c.Seed) + 4, US: 0, P: 60}, {Seed: int(c.Seed) + 5, US: 500, P: 20}}
+		{Seed: int(c.Seed) + 3, US: 3000, P: 12}, {Seed: int(c.Seed) + 4, US: 0, P: 60}, {Seed: int(c.Seed) + 5, US: 500, P: 20},
+		// user callbacks (OnRead/OnWrite/OnJoin/OnLeaveEvent) that sleep up to 20 / 5 ms, with and without the overlay's delays
+		{Seed: int(c.Seed) + 6, US: 0, P: 30, SlowCB: 20}, {Seed: int(c.Seed) + 7, US: 200, P: 30, SlowCB: 5}}
 	per := 16
 	if !c.Quick() {
 		per = 120
@@ -157,8 +159,10 @@ func c13(c *Ctx) {
 			c.Count("targeted:" + st.Func + "/" + st.What)
 		}
 	}
-	if !c.Quick() { // the witness of finding blocked-write, in a server of its own (it wedges the session manager)
-		results = append(results, &br{d: DelayCfg{Seed: int(c.Seed), US: 0, P: 0}, jobs: []string{fmt.Sprintf("scn noread %d", c.Rng.Int63n(90000000))}})
+	// the witness of finding blocked-write, in a server of its own (it wedges the session manager); also in the quick tier
+	results = append(results, &br{d: DelayCfg{Seed: int(c.Seed), US: 0, P: 0}, jobs: []string{fmt.Sprintf("scn noread %d", c.Rng.Int63n(90000000))}})
+	if !c.Quick() { // default0 (3 s timer) with disconnects under the targeted delays as well
+		tk = append(tk, "default0")
 	}
 	limit := 70 * time.Second
 	if !c.Quick() {
@@ -176,7 +180,16 @@ func c13(c *Ctx) {
 		}(b)
 	}
 	wg.Wait()
+	var notes []string
+	defer func() { c.Extra["notes"] = notes }()
 	for _, b := range results {
+		if len(b.jobs) == 1 && strings.HasPrefix(b.jobs[0], "scn noread") && len(b.r.Outs) == 0 {
+			notes = append(notes, "NOTE witness noread: no report from the child ("+Trunc(b.r.Crash, 200)+")")
+			c.Count("witness:noread:no-report")
+		}
+		if b.d.SlowCB > 0 {
+			c.Count(fmt.Sprintf("slow-callbacks:%dms", b.d.SlowCB))
+		}
 		if b.d.Site == 0 {
 			c.Count(fmt.Sprintf("delay:us=%d,p=%d", b.d.US, b.d.P))
 		}
@@ -196,6 +209,16 @@ func c13(c *Ctx) {
 				continue
 			}
 			c.Count("scn:" + f[1])
+			if o.Note != "" {
+				n := o.Note
+				if i := strings.Index(n, ":"); i > 0 {
+					n = n[:i]
+				}
+				c.Count("witness:" + f[1] + ":" + n)
+				if n != "reproduced" {
+					notes = append(notes, "NOTE witness "+f[1]+" ("+o.Line+"): "+o.Note)
+				}
+			}
 			for k, n := range o.Kinds {
 				c.Dist["result:"+k] += n
 			}
